@@ -299,7 +299,7 @@ func genReuseInput(t *rapid.T) ([]byte, string) {
 }
 
 func TestC15_Histories(t *testing.T) {
-	runRapid(t, "C15_Histories", nCases(15_000, 300_000), func(t *rapid.T) {
+	runRapid(t, "C15_Histories", nCases(15_000, 150_000), func(t *rapid.T) {
 		maxSteps := 15
 		if thorough() {
 			maxSteps = 40
